@@ -607,8 +607,10 @@ def merkle_facts(ctx):
         t = wl[0].test
         body = wl[0].body
         s = norm(t.left) if isinstance(t, ast.Compare) else None
-        dbl = len(body) == 1 and isinstance(body[0], ast.AugAssign) and norm(body[0].target) == s and \
-            ((isinstance(body[0].op, ast.LShift) and fold_int(body[0].value) == 1) or (isinstance(body[0].op, ast.Mult) and fold_int(body[0].value) == 2))
+        upd = [b_ for b_ in body for x in ast.walk(b_) if isinstance(x, (ast.Assign, ast.AugAssign)) and any(isinstance(t_, ast.Name) and t_.id in (s, v)
+               for t_ in ast.walk(x.target if isinstance(x, ast.AugAssign) else x.targets[0]))]
+        dbl = len(upd) == 1 and isinstance(upd[0], ast.AugAssign) and norm(upd[0].target) == s and \
+            ((isinstance(upd[0].op, ast.LShift) and fold_int(upd[0].value) == 1) or (isinstance(upd[0].op, ast.Mult) and fold_int(upd[0].value) == 2))
         init = [n for n in own_nodes(np2.node) if isinstance(n, ast.Assign) and norm(n.targets[0]) == s]
         init1 = len(init) == 1 and fold_int(init[0].value) == 1
         ret = any(isinstance(n, ast.Return) and norm(n.value) == s for n in own_nodes(np2.node))
